@@ -116,6 +116,20 @@ class Check:
         self.discharged = good
         return not self.broken
 
+    def stage(self, name, fn, *a, **k):
+        """run one correspondence / monitor stage; if the harness can no longer drive the implementation (changed
+        signature, corrupted data, ...) that is a broken correspondence, not an infrastructure failure"""
+        try:
+            return fn(*a, **k)
+        except C.Infra:
+            raise
+        except Exception as e:  # noqa
+            import traceback
+            self.broken.append(dict(kind="correspondence", name=name,
+                                    detail=f"stage could not be evaluated against the implementation: {type(e).__name__}: {e}",
+                                    traceback=traceback.format_exc()[-1500:]))
+            return None
+
     def corr(self, name, n_cases, disagreements, nontrivial_keys=(), samples=()):
         """record a correspondence run: `disagreements` = list of dict(case=…, diff=…)"""
         c = self.coverage["corr"].setdefault(name, {"cases": 0, "disagreements": 0})
